@@ -3,3 +3,8 @@ import Woodpile.Gen.Consts
 import Woodpile.Model.Arena
 import Woodpile.Model.ReadN
 import Woodpile.Proofs.HcobsSpec
+import Woodpile.Proofs.PipeLemmas
+import Woodpile.Proofs.HcobsDec
+import Woodpile.Proofs.HcobsEnc
+import Woodpile.Props.C01
+import Woodpile.Props.C09
